@@ -858,6 +858,7 @@ func c08Store(p *core.Program, r *core.Report, fns []*ssa.Function) {
 			okW, _ := returnsCallUnmodified(sd, set)
 			c.ob("PV1", "cache.(*Cache).SetDefault", "SetDefault is Set with the default duration", c.fpos(sd), okW, "SetDefault returns something other than the result of Set: some values are silently not stored")
 		}
+		copiesWholeMap(c, "cache.(*Cache).List")
 		workOnEveryPath(c, "cache.(*Cache).Flush", "map reset on every path", "cache", "items", nil, "Flush returns on a path that keeps the entries")
 	}
 	const T = "cache.(*Cache)."
